@@ -36,11 +36,26 @@ func devCmd(args []string) {
 	timeout := fs.Duration("timeout", 10*time.Second, "solver timeout")
 	dump := fs.Bool("dump", false, "dump SSA")
 	subst := fs.String("sub", "", "in-memory mutation: relpath::old::new")
+	addfile := fs.String("addfile", "", "overlay a new file: relpath=localfile[,relpath=localfile]")
+	repoDir := fs.String("repo", "/repo", "repository root")
 	fs.Parse(args)
-	eng := NewEngine("/repo")
+	eng := NewEngine(*repoDir)
+	if *addfile != "" {
+		if eng.Overlay == nil {
+			eng.Overlay = map[string][]byte{}
+		}
+		for _, kv := range strings.Split(*addfile, ",") {
+			p := strings.SplitN(kv, "=", 2)
+			data, err := os.ReadFile(p[1])
+			if err != nil {
+				panic(err)
+			}
+			eng.Overlay[*repoDir+"/"+p[0]] = data
+		}
+	}
 	if *subst != "" {
 		parts := strings.SplitN(*subst, "::", 3)
-		path := "/repo/" + parts[0]
+		path := *repoDir + "/" + parts[0]
 		data, err := os.ReadFile(path)
 		if err != nil {
 			panic(err)
@@ -49,7 +64,10 @@ func devCmd(args []string) {
 			fmt.Println("mutation pattern not found")
 			os.Exit(2)
 		}
-		eng.Overlay = map[string][]byte{path: []byte(strings.Replace(string(data), parts[1], parts[2], 1))}
+		if eng.Overlay == nil {
+			eng.Overlay = map[string][]byte{}
+		}
+		eng.Overlay[path] = []byte(strings.Replace(string(data), parts[1], parts[2], 1))
 	}
 	t0 := time.Now()
 	if err := eng.Load(strings.Split(*pkgs, ",")); err != nil {
